@@ -78,6 +78,7 @@ NormV(v) ==
          <<v[1], [i \in DOMAIN v[2] |-> <<NormV(v[2][i][1]), NormV(v[2][i][2])>>]>>
     [] v[1] = "ChainMap" -> <<v[1], [i \in DOMAIN v[2] |-> NormV(v[2][i])]>>
     [] v[1] = "obj" -> <<"obj", v[2], [i \in DOMAIN v[3] |-> NormV(v[3][i])]>>
+    [] v[1] = "sobj" -> <<"sobj", v[2], NormV(v[3])>>
     [] v[1] = "nt"  -> <<"nt", v[2], [i \in DOMAIN v[3] |-> NormV(v[3][i])]>>
     [] OTHER -> v
 
@@ -95,6 +96,7 @@ EqForm(v) ==
     [] v[1] = "OrderedDict" -> <<v[1], [i \in DOMAIN v[2] |-> <<EqForm(v[2][i][1]), EqForm(v[2][i][2])>>]>>
     [] v[1] = "ChainMap" -> <<v[1], [i \in DOMAIN v[2] |-> EqForm(v[2][i])]>>
     [] v[1] = "obj" -> <<"obj", v[2], [i \in DOMAIN v[3] |-> EqForm(v[3][i])]>>
+    [] v[1] = "sobj" -> <<"sobj", v[2], EqForm(v[3])>>
     [] v[1] = "nt"  -> <<"nt", v[2], [i \in DOMAIN v[3] |-> EqForm(v[3][i])]>>
     [] OTHER -> v
 
@@ -121,7 +123,7 @@ NormT(T) ==
     [] T[1] \in {"dict", "odict", "ddict", "mapping", "mmapping", "mproxy", "chainmap"} -> <<T[1], NormT(T[2]), NormT(T[3])>>
     [] T[1] \in {"tuple", "union"} -> <<T[1], [i \in DOMAIN T[2] |-> NormT(T[2][i])]>>
     [] T[1] \in {"utuple", "ustar"} -> <<T[1], [i \in DOMAIN T[2] |-> NormT(T[2][i])], NormT(T[3]), [i \in DOMAIN T[4] |-> NormT(T[4][i])]>>
-    [] T[1] = "newtype" -> <<"newtype", T[2], NormT(T[3])>>
+    [] T[1] \in {"newtype", "stype"} -> <<T[1], T[2], NormT(T[3])>>
     [] T[1] \in {"fwd", "tvarc", "tvarb"} -> <<T[1], T[2], NormT(T[3])>>
     [] OTHER -> T
 =============================================================================
